@@ -33,9 +33,9 @@ CLAIMED = {
     "C20": dict(engine="chain", technique="TLA+ model of chain operations (Chain.tla) explored by TLC; operation sequences replayed on LongChain/CowBytes; observations validated by TLC",
                 text="TLC explores all operation sequences to a fixed depth from small chains with arguments at, inside and one past every boundary and checks that the canonical semantics meets the relational postcondition on the flattened sequence; every explored sequence is replayed on the real LongChain (borrowed and owned chunks, debug and production profiles) and TLC validates each observed step against the postcondition; CowBytes accessors/comparisons/hash are compared with TLA+-computed results.",
                 note=REF_NOTE, ref="DESIGN.md section 4 (C20)"),
-    "C12": dict(engine="wake", technique="atomic-step TLA+ model (WriterWake.tla) checked by TLC + loom-enumerated executions of the real code validated by TLC against the same contract",
+    "C12": dict(engine="wake", technique="atomic-step TLA+ models checked by TLC (WriterWake.tla: sequentially consistent; WriterWakeRA.tla: view-based release/acquire memory with the AtomicWaker internals) + loom-enumerated executions of the real code validated by TLC against the same contract",
                 text="TLC explores every interleaving of the writer's poll and the task's acknowledge/close at the grain of single atomic operations (spurious CAS failures included) for eight scenarios and checks the credit/wake-up contract (the pinned check-register-return algorithm is rejected as a self-test); an in-crate loom module (hook, feature verif-hooks) lets loom enumerate the interleavings of the REAL poll_obtain_write_permission / acknowledge / disallow_write under its C11 model, and TLC validates the observable history of every execution (results, which poll's waker was woken, final credit) against the same contract.",
-                note="TLA+ model is sequentially consistent; weak-memory behaviours are explored on the implementation side only (loom's C11 approximation: no load buffering / out-of-thin-air); quick tier bounds loom preemptions at 3",
+                note="the weak-memory model (release/acquire + relaxed, no SeqCst fences, no promises) is a design-level model: orderings are not observable in traces; on the implementation side weak-memory behaviours are explored by loom's C11 approximation (no load buffering / out-of-thin-air); quick tier bounds loom preemptions at 3",
                 ref="DESIGN.md section 4 (C12)"),
     "C17": dict(engine="tls", technique="TLA+ decision table + identity-reload state machine (TlsAuth.tla) enumerated by TLC; real rustls handshakes (in-memory duplex and the real server_main with SIGUSR1 reloads over loopback TCP) validated by TLC",
                 text="TLC enumerates the 72-cell authentication matrix and all reload interleavings of a small identity state machine written from the property text (it carries the server's client CA and its generations: a reload replaces certificate and key and re-reads the client-CA bundle at the configured path, a rotation of that bundle in place takes effect at the next reload and not before, a failed reload changes nothing; a client-side machine covers a roots file replaced in place between connects; negative-control models -- stale, in-place, disconnecting, client-CA-dropping, stale-CA, eager-CA, stale-roots, deaf reloads -- must fail); every cell and script is executed as real handshakes with rcgen-generated chains: through the repository's own tls_connect / make_server_config / reload_tls_identity over an in-memory duplex, and through the real server entry point (server_main in-process on a loopback port, certificate files rewritten, SIGUSR1 raised, probes with a trusted client certificate, none, and one from another CA before and after every reload), with an application-data round trip deciding 'reached the server', and TLC validates every logged observation.",
@@ -88,7 +88,7 @@ manifest = dict(
         dict(name="gate", path="tools/fam_gate.py", serves_properties=["C14"], kind_free_text="Upgrade.tla / MC_Upgrade.tla / UpgradeTrace.tla + harness_app gate"),
         dict(name="tunnel", path="tools/fam_tunnel.py", serves_properties=["C01"], kind_free_text="DirectConn.tla / MC_DirectConn.tla / TunnelTrace.tla + harness_app tunnel"),
         dict(name="retry", path="tools/fam_retry.py", serves_properties=["C19"], kind_free_text="Backoff.tla / ClientRetry.tla / BackoffTrace.tla / RetryTrace.tla + harness backoff_vec + harness_app retry_sim"),
-        dict(name="wake", path="tools/fam_wake.py", serves_properties=["C12"], kind_free_text="WriterWake.tla / WakeTrace.tla + loom hook penguin-mux/src/verif_wake.rs"),
+        dict(name="wake", path="tools/fam_wake.py", serves_properties=["C12"], kind_free_text="WriterWake.tla / WriterWakeRA.tla / WakeTrace.tla + loom hook penguin-mux/src/verif_wake.rs"),
         dict(name="tls", path="tools/fam_tls.py", serves_properties=["C17"], kind_free_text="TlsAuth.tla / MC_TlsAuth.tla / TlsTrace.tla + harness_app tls_matrix"),
     ],
     checks=checks,
